@@ -24,6 +24,9 @@ SPEC = Spec(
         Harness(name="scraper", module="scraper/scraperhelper", pkg="scraper/scraperhelper",
                 files={"zz_verif_c19_scraper_test.go": "c19/scraper_test.go"},
                 test="TestVerifC19Scraper", driver="drv_c19", n={"quick": 5000, "thorough": 50000}, timeout_s=1500),
+        Harness(name="obsconsumer", module="service", pkg="service/internal/obsconsumer",
+                files={"zz_verif_c19_obsconsumer_test.go": "c19/obsconsumer_test.go"},
+                test="TestVerifC19ObsConsumer", driver="drv_c19", n={"quick": 3000, "thorough": 30000}),
         Harness(name="exporter", module="exporter", pkg="exporter/exporterhelper",
                 files={"zz_verif_c03_shutdown_test.go": "c03/shutdown_test.go", "zz_verif_c19_exporter_test.go": "c19/exporter_test.go"},
                 test="TestVerifC19Exporter", driver="drv_c19", go="go1.26", n={"quick": 3000, "thorough": 40000}, timeout_s=1500),
@@ -52,6 +55,10 @@ SPEC = Spec(
          "3 signals x {0,1,2} items x {ok,error}; processor = every history of length <= 2 over 3 signals x {0,2} in x 6 outcomes x "
          "{next consumer keeps/empties the payload}; scraper = both controllers x (one scrape of two scrapers, two scrapes of one "
          "scraper) over 5 scraper results x next ok/fails x keeps/empties. "
+         "obsconsumer: 1-3 real service/internal/obsconsumer wrappers per case (logs/metrics/traces/profiles, own counter each, 0-8 static "
+         "data-point attributes of mixed value types; cases 0-35 = every signal x every attribute count), 2-15 calls with 0-6 items, "
+         "downstream accepts/refuses, in 1/3 after emptying the payload; after every call success/failure/other of every instrument are "
+         "read by exact attribute set; non-trivial = an accepted and a refused non-empty call. "
          "exporter: the C03 scenario generator/runner (harness/c03/shutdown_test.go: real logs/traces/metrics exporter, memory/persistent "
          "queue, both batchers, retry, wait_for_result, refusals, storage faults, in one synctest bubble) with component-test telemetry: the "
          "three item counters of the case's signal are read after each case and diffed with the model's prediction from the trace; the "
